@@ -25,6 +25,8 @@ EXPLANATION = (
   "arithmetic unguarded."
   " (FIN-timing) the statements that combine begin / dur / end, evaluated over a grid of small rationals and absent attributes, equal TTML timing: begin relative to the implicit begin; end = min(begin + dur, implicit begin + end), else the one present, else the implicit end;"
   " (STATE-alias / STATE-global) no function of the anchored modules mutates a module- or class-level container, rebinds module / class state or mutates a mutable default argument, so a result never depends on earlier calls;"
+  " (LINT-i) no numeric value parsed from the input is defaulted with `or` (a legitimate 0 would be replaced);"
+  " (PRI-style, chained) a referenced style is flattened (recursive call) before its properties are copied;"
 )
 RULE_TEXT = "per extraction call site x exception class, per styling step, per element class x flag, per arithmetic use of an Optional time"
 UNDECIDED = ["par/seq/dur resolution and implicit durations as values", "white-space and anonymous-span semantics", "time expression arithmetic per syntax (h/m/s/ms/f/t)"]
